@@ -24,11 +24,18 @@ frames redrawn by those two prints fit the screen like any other frame.
 The screen theorems are about the code with the argument-less `print()` routed through the render
 hooks (`bareBypass = false`); `old_bare_print_leaves_remnant` is the machine-checked witness that rich 9.10.0
 as found, before fix b373465 (`bareBypass = true`), breaks them.  Likewise `cleanup_on_exception` needs the guarded
-`Progress.start` (`startGuard = true`, fix 4e4f7e5) and `old_progress_start_leaks` is the witness for the as-found code.
-`live_screen` speaks about one session (`stop` last); what goes wrong when a stopped display is started
+`Progress.start` (`Cfg.guards`: `startGuard = true`, fix 4e4f7e5, and — when the injected exception derives from
+BaseException only, `faultBase` — `guardBase = true`, fix fc3f517); `old_progress_start_leaks` and
+`old_start_guard_misses_base_exception` are the witnesses for the as-found code and for the first guard.
+`live_screen` speaks about one session (`stop` last); `live_screen_sessions` / `cursor_never_above_region_sessions`
+are the same statements for any number of sessions on the same display object (`wfM`: `stop` anywhere) and need the
+repaired `stop` (`resetShape = true`); what goes wrong when a stopped display is started
 again with the as-found `stop` (before fix b4577f9) is witnessed by `old_restart_erases_printed_lines`
-(`resetShape = false`).  /repo contains the repairs `bareBypass = false`, `startGuard = true`, `resetShape = true`,
-`blankFix = true`, `flushFix = true`; `guardBase` and `disableFix` are the two still open.
+(`resetShape = false`).  /repo contains all seven repairs: `bareBypass = false` (fix b373465), `startGuard = true`
+(4e4f7e5), `resetShape = true` (b4577f9), `blankFix = true` (bd10e80), `flushFix = true` (4c3921f), `guardBase = true`
+(fc3f517), `disableFix = true` (363ded9) — the values the harness passes; every `old_…` theorem below is the
+machine-checked witness for the as-found value of one of these flags.  Still open (known finding, no small repair): a
+transient display whose last frame fills the screen, `transient_frame_filling_screen_leaves_remnant`, the case `wf` excludes.
 -/
 namespace RichModel.C10
 open RichModel RichModel.Screen RichModel.Live
@@ -241,7 +248,7 @@ example :
   decide
 
 
-/-- Today's `restore_cursor` (`blankFix = false`) goes up `height` rows: a transient display whose last
+/-- The `restore_cursor` of rich 9.10.0 as found, before fix bd10e80 (`blankFix = false`), goes up `height` rows: a transient display whose last
 frame is *empty* (a `Progress(transient=True)` without visible task, a Live showing nothing) does not undo
 the line feed `stop` wrote, and one blank line stays between what was printed before and after —
 `a / (blank) / b` although a transient display is to leave nothing.  (`finished` records that blank row, so
@@ -255,7 +262,7 @@ theorem old_transient_empty_frame_leaves_blank_line :
     finished { cfg with blankFix := true } .ellipsis [] h = [['a'], ['b']] := by
   decide
 
-/-- Today's `stop` (`flushFix = false`) does not flush the redirected streams before its last refresh.
+/-- The `stop` of rich 9.10.0 as found, before fix 4c3921f (`flushFix = false`), does not flush the redirected streams before its last refresh.
 Text that `print("DL", end="")` left pending in the FileProxy is written only when the proxy object dies
 in `_disable_redirect_io` — after the last frame and the final line feed, through the still installed
 hook: a row of the old frame stays, the text lands below it, the frame is drawn a second time and the
@@ -269,10 +276,11 @@ theorem old_pending_text_flushed_after_last_frame :
       = [['D', 'L'], ['1'], ['2'], []] := by
   decide
 
-/-- The guard of fix 4e4f7e5 is `except Exception:`.  A renderable that raises KeyboardInterrupt /
+/-- The guard of fix 4e4f7e5 was `except Exception:` (`guardBase = false`, the code before fix fc3f517).  A
+renderable that raises KeyboardInterrupt /
 SystemExit / GeneratorExit (`faultBase = true`) inside the first refresh of `Progress.start` gets past
 it: `__enter__` never returns, `__exit__` is never called, hook, redirection and hidden cursor stay
-behind (`guardBase = false`); with `except BaseException:` (`guardBase = true`) everything is restored. -/
+behind (`guardBase = false`); with `except BaseException:` (`guardBase = true`, fix fc3f517) everything is restored. -/
 theorem old_start_guard_misses_base_exception :
     let cfg : Cfg := { cfgProgress with startGuard := true, faultBase := true }
     let st0 := (run cfg (fun i => i == 1) (initSt .visible []) [.addTask ['t'] true 100]).1
@@ -282,9 +290,10 @@ theorem old_start_guard_misses_base_exception :
     (good.2.2 = true ∧ good.1.hooks = 0 ∧ good.1.stdoutDepth = 0 ∧ (replay 6 Screen.init good.2.1).visible = true) := by
   decide
 
-/-- `Progress(disable=True)` draws nothing — but its `stop` still writes the line feed that follows a last
+/-- `Progress(disable=True)` draws nothing — but in rich 9.10.0 as found, before fix 363ded9, its `stop` still wrote
+the line feed that follows a last
 frame (`disableFix = false`): `a / (blank) / b` for `print a; start; stop; print b`, transient or not,
-although a disabled display has no frame to leave.  The repaired `stop` (`disableFix = true`) writes no
+although a disabled display has no frame to leave.  The repaired `stop` (`disableFix = true`, fix 363ded9) writes no
 line feed and erases nothing when the display is disabled. -/
 theorem old_disabled_progress_writes_newline :
     let cfg : Cfg := { cfgProgress with bareBypass := false, resetShape := true, flushFix := true, blankFix := true, startGuard := true, disable := true, transient := true }
@@ -301,22 +310,23 @@ theorem old_disabled_progress_writes_newline :
   real rich shows `F1 / F2` after `start; refresh; print("abc", end=""); refresh; stop`.  Keeping partial
   output would need the display to buffer it (as FileProxy does for `sys.stdout`); this is the design of
   `process_renderables`, not a slip in it.  `wf` therefore has no such operation; text written to the
-  *redirected streams* without a new line is modelled (`Op.write`), and must have been completed when
-  `stop` is called (`wf`), or is handled by the repaired `stop` (witness above).
-* a transient display with an empty last frame leaves a blank line — a finding (small):
+  *redirected streams* without a new line is modelled (`Op.write`); what is still pending when `stop` is
+  called is printed by the repaired `stop` above the last frame — no hypothesis of `wf` (witness above for
+  the as-found `stop`).
+* a transient display with an empty last frame leaves a blank line — a finding (small; fixed, bd10e80):
   `old_transient_empty_frame_leaves_blank_line`.
-* text pending in a FileProxy at `stop` — a finding: `old_pending_text_flushed_after_last_frame`.  With
+* text pending in a FileProxy at `stop` — a finding (fixed, 4c3921f): `old_pending_text_flushed_after_last_frame`.  With
   the repaired `stop` the theorems need no hypothesis about it: the pending text of stdout, then of
   stderr, is printed right below everything printed so far and above the last frame
   (`pendLines`, part of `viewStop` / `viewStopM`).
 * `Progress(disable=True)`: "nothing if transient" — and nothing otherwise, a disabled display has no
-  frame — is broken by the line feed of `stop`: a finding, `old_disabled_progress_writes_newline`
+  frame — was broken by the line feed of `stop`: a finding (fixed, 363ded9), `old_disabled_progress_writes_newline`
   (the repair is in `Progress.stop`, not in `restore_cursor`, whose `""` for an unknown shape is pinned by
   tests/test_live_render.py).  Disabled displays stay outside `Cfg.plain`.
 * BaseException raised by the body or by a renderable: `stop` uses `finally`, and `cleanup_on_exception`
   quantifies over *whether* an error is raised, not over its class, so it covers KeyboardInterrupt,
   SystemExit and GeneratorExit — except in the one place where the class matters, the guard of
-  `Progress.start`: a finding, `old_start_guard_misses_base_exception`. -/
+  `Progress.start`: a finding (fixed, fc3f517), `old_start_guard_misses_base_exception`. -/
 
 /-- What the redirected streams print (the part of C19's `proxy_lines` / `proxy_two_streams` this property
 relies on, restated for `Op.write`): over any sequence of writes to a stream, the lines handed to the
